@@ -11,7 +11,9 @@ import (
 	"math/rand/v2"
 	"os"
 	"path/filepath"
+	"regexp"
 	"runtime/debug"
+	"strconv"
 	"strings"
 	"testing"
 
@@ -69,6 +71,12 @@ var hostileResponses = []string{
 	"HTTP/1.1 200 OK\r\nContent-Length: 10\r\nCache-Control: max-age=60\r\n\r\nabc",
 	"HTTP/1.1 200 OK\r\nContent-Length: 0\r\nCache-Control: max-age=60\r\nETag: \"e\"\r\n\r\n",
 	"HTTP/1.1 204 No Content\r\nCache-Control: max-age=60\r\n\r\n",
+	"HTTP/1.1 099 Low\r\nContent-Length: 3\r\n\r\nabc",
+	"HTTP/1.1 000 Zero\r\nContent-Length: 0\r\n\r\n",
+	"HTTP/1.1 101 Switching Protocols\r\nUpgrade: x\r\nConnection: Upgrade\r\n\r\n",
+	"HTTP/1.1 100 Continue\r\n\r\nHTTP/1.1 200 OK\r\nContent-Length: 3\r\n\r\nabc",
+	"HTTP/1.1 1000 Big\r\nContent-Length: 3\r\n\r\nabc",
+	"HTTP/1.1 -1 Neg\r\nContent-Length: 3\r\n\r\nabc",
 	"HTTP/1.1 200 OK\r\nContent-Length: 3\r\nCache-Control: max-age=60\r\nExpires: 0\r\nDate: Sat, 01 Jan 2000 00:00:00 GMT\r\nX-" + strings.Repeat("h", 3000) + ": v\r\n\r\nabc",
 }
 
@@ -259,12 +267,21 @@ func enumString(alpha []byte, i int) string {
 
 const validPHC = "$argon2id$v=19$m=64,t=1,p=1$c29tZXNhbHRzb21lc2FsdA$RdescudvJCsgt3ub+b+dWRWJTmaaJObG"
 
+var phcMemRe = regexp.MustCompile(`\$m=(\d+),`)
+
+func trunc(s string, n int) string {
+	if len(s) > n {
+		return s[:n] + "..."
+	}
+	return s
+}
+
 func phcMutations(r *rand.Rand, n int) []string {
 	parts := strings.Split(strings.TrimPrefix(validPHC, "$"), "$")
 	subs := [][]string{
 		{"argon2id", "argon2i", "", "ARGON2ID", "bcrypt"},
 		{"v=19", "v=", "v=x", "19", "v=99999999999999999999", "v=-1"},
-		{"m=64,t=1,p=1", "m=64,t=1,p=1,l=24", "m=64,t=1,p=1,l=23", "m=0,t=1,p=1", "m=64,t=1,p=0", "m=64,t=1,p=256", "m=,t=,p=", "", "m=64", "m=64,t=1,p=1,x", "m=64,,t=1,,p=1", "m=4294967296,t=1,p=1", "m=-1,t=1,p=1", "m=64,t=1,p=1,l=4294967295"},
+		{"m=64,t=1,p=1", "m=64,t=1,p=1,l=24", "m=64,t=1,p=1,l=23", "m=0,t=1,p=1", "m=64,t=1,p=0", "m=64,t=1,p=256", "m=,t=,p=", "", "m=64", "m=64,t=1,p=1,x", "m=64,,t=1,,p=1", "m=4294967296,t=1,p=1", "m=-1,t=1,p=1", "m=64,t=1,p=1,l=4294967295", "m=4294967295,t=1,p=1", "m=2147483648,t=1,p=2", "m=1073741824,t=1,p=1"},
 		{"c29tZXNhbHRzb21lc2FsdA", "", "c29tZXNhbHQ", "c29tZXNhbHRzb21lc2FsdHNvbWVzYWx0c29tZXNhbHQ", "!!!!", "c29tZXNhbHRzb21lc2FsdA==", "c29tZXNhbHRzb21lc2FsdAA", strings.Repeat("A", 4000)},
 		{"RdescudvJCsgt3ub+b+dWRWJTmaaJObG", "", "!!", "RdescudvJCsgt3ub", strings.Repeat("B", 4000), "RdescudvJCsgt3ub+b+dWRWJTmaaJObG=="},
 	}
@@ -383,6 +400,13 @@ func runParserPlan(t *testing.T, planAny any, ctl Ctl) *Result {
 					_ = s.Scan([]byte(it))
 					if strings.Contains(it, "m=64,t=1,p=1") {
 						_ = h.VerifyArgon2id("password")
+					}
+					// verifying against this hash allocates m KiB: a terabyte or more is a process abort
+					// ("fatal error: out of memory" cannot be recovered), so such a string must be refused
+					if m := phcMemRe.FindStringSubmatch(h.String()); m != nil {
+						if kib, _ := strconv.ParseUint(m[1], 10, 64); kib >= 1<<30 {
+							res.violate("C16.b", "phc-accepted-with-memory-parameter-that-aborts-the-process", "ParsePHC accepted %q: verifying a password against it allocates %d KiB", trunc(it, 120), kib)
+						}
 					}
 				}
 			})
